@@ -24,7 +24,7 @@
 using namespace vf;
 
 struct Shared {
-    ST::string s_short, s_long, s_utf8, s_num, s_b64, s_hex, s_mixed;
+    ST::string s_short, s_long, s_utf8, s_num, s_b64, s_hex, s_mixed, s_100, s_100b, s_big;
     ST::char_buffer cb; ST::utf16_buffer u16; ST::utf32_buffer u32; ST::wchar_buffer wb;
     Shared()
         : s_short(ST_LITERAL("aB,c d")), s_long(ST_LITERAL("  The quick brown fox, jumps over; the lazy dog  \t")),
@@ -32,6 +32,10 @@ struct Shared {
           s_num(ST_LITERAL("-12345678901")), s_b64(ST_LITERAL("SGVsbG8sIHdvcmxkIQ==")), s_hex(ST_LITERAL("00ff10Ab7f80")),
           s_mixed(ST_LITERAL("key=value;Key=Other;KEY=third"))
     {
+        // longer shared texts: block-wise fast paths, scratch state and sharing schemes only engage above some size
+        { std::string a(70, 'a'); a += "\xC3\xA9 tail \xE2\x82\xAC"; a += std::string(30, 'z'); s_100 = ST::string::from_utf8(a.data(), a.size()); }
+        { std::string b(20, 'b'); b += "\xF0\x9F\x98\x80"; b += std::string(90, 'y'); s_100b = ST::string::from_utf8(b.data(), b.size()); }
+        { std::string c; for (int i = 0; i < 2500; ++i) c += (char)('A' + i % 26); s_big = ST::string::from_utf8(c.data(), c.size()); }
         cb = s_long.to_utf8(); u16 = s_utf8.to_utf16(); u32 = s_utf8.to_utf32(); wb = s_utf8.to_wchar();
     }
 };
@@ -68,6 +72,11 @@ static std::vector<NamedOp> catalogue() {
     OP("copy", ST::string c1 = S.s_long; ST::string c2(S.s_utf8); c1 += c2; return bytes_of(c1););
     OP("concat", return bytes_of(S.s_short + S.s_long + "lit" + U'\x20AC' + S.s_utf8););
     OP("buffer_shared", return num(S.cb.compare(S.s_long.c_str()) + (long long)S.u16.size() + (long long)S.u32.size() + (long long)S.wb.size()) + bytes_of(ST::char_buffer(S.cb)););
+    OP("long_to_utf16", return bytes_of(S.s_100.to_utf16()) + bytes_of(S.s_100b.to_utf16()) + bytes_of(ST::utf8_to_utf16(S.s_100b.c_str(), S.s_100b.size(), ST::check_validity)););
+    OP("long_to_utf32", return bytes_of(S.s_100.to_utf32()) + bytes_of(S.s_100b.to_wchar()) + bytes_of(S.s_100.to_latin_1()););
+    OP("big_copies", ST::string c1 = S.s_big; ST::string c2 = S.s_big.substr(0); ST::string c3 = S.s_big.left(5000); ST::char_buffer b = S.s_big.to_utf8();
+                     return num((long long)(c1.size() + c2.size() + c3.size() + b.size())) + bytes_of(S.s_big.after_last("#")).substr(0, 40) + bytes_of(c2).substr(2400););
+    OP("big_search", return num(S.s_big.find("XYZ") + S.s_big.find_last("ABC") + (long long)S.s_big.split('M').size() + S.s_big.to_upper().compare(S.s_big)) + bytes_of(S.s_big.replace("ABC", "x")).substr(0, 30););
     // ---- independent conversions on own data ----
     OP("conv_utf16", return bytes_of(ST::utf16_to_utf8(S.u16.data(), S.u16.size(), ST::check_validity)) + bytes_of(ST::utf8_to_utf16(S.s_utf8.c_str(), S.s_utf8.size(), ST::check_validity)););
     OP("conv_utf32", return bytes_of(ST::utf32_to_utf8(S.u32.data(), S.u32.size(), ST::check_validity)) + bytes_of(ST::utf8_to_utf32(S.s_utf8.c_str(), S.s_utf8.size(), ST::substitute_invalid)););
